@@ -1108,6 +1108,14 @@ CLOSURE_RUNS_ON = {
 }
 
 
+# combinators with one closure per variant of the receiver, by position among the call's closures:
+# `opt.map_or_else(|| on_none, |x| on_some)`, `res.map_or_else(|e| on_err, |v| on_ok)`
+CLOSURE_PAIR_RUNS_ON = {
+    "std::option::Option::<T>::map_or_else": (0, 1),
+    "std::result::Result::<T, E>::map_or_else": (1, 0),
+}
+
+
 def body_ty_is_bool(rv):
     """The operand of a unary `Not` is a bool (not an integer being complemented)."""
     a = rv.get("a") or {}
@@ -1535,8 +1543,22 @@ class PathSens:
                 if rf and rf[0] in ("var", "const"):
                     recv = rf[1]
             has_may = any(lab == "maycall" for lab, _ in edges)
+            pair_on = CLOSURE_PAIR_RUNS_ON.get(f["def"]) if f else None
+            pair_recv = None
+            if pair_on is not None and t["args"] and is_place(t["args"][0]) and not t["args"][0]["p"]["pr"]:
+                rf = facts.get((path, t["args"][0]["p"]["l"]))
+                if rf and rf[0] == "var":
+                    pair_recv = rf[1]
             for lab, succ in edges:
                 f2 = dict(facts)
+                if pair_recv is not None and has_may:
+                    cids = f.get("closures") or []
+                    if lab == "maycall":
+                        cid_ = succ[0][-1][2] if succ[0] else None
+                        if cid_ in cids and cids.index(cid_) < 2 and pair_on[cids.index(cid_)] != pair_recv:
+                            continue  # the closure for the other variant does not run
+                    elif len(cids) == 2:
+                        continue  # one of the two closures always runs: its return is where control continues
                 if recv is not None and has_may:
                     runs = recv == run_on[0]
                     if lab == "maycall" and not runs:
